@@ -307,6 +307,36 @@ def c02_oracle(full, io, b):
             continue
         if pct_bytes(got) != arg.encode("utf-8"):
             out.append(fail(vv, h, tcomp[f[3]], f"{f[3]}({arg!r}) stored {got!r}, which decodes to {pct_bytes(got)!r}: not the bytes of the supplied text", "modifier-target-bytes"))
+    # URL level: update_query / extend_query with a query STRING — each supplied '&'-piece is found in the result with the same
+    # form-decoded key and value bytes (update_query PARSES the string — escapes are escapes; extend_query, like with_query, takes it as text — a '%' is data)
+    for h, n in enumerate(vv.cr):
+        f = full[n].split("\t")
+        if f[0] != "mod" or f[3] not in ("update_query", "extend_query") or not vv.alive(h) or len(f) < 5 or not f[4].startswith("S"):
+            continue
+        try:
+            sup = dec(f[4][1:])
+        except Exception:
+            continue
+        raw = vv.get(h, "raw_query_string")
+        if raw is None or raw.startswith("!") or not no_surr_a(sup):
+            continue
+        got = set()
+        for pc in (dec(raw).split("&") if dec(raw) else []):
+            k, _, x = pc.partition("=")
+            got.add((up.unquote_to_bytes(k.replace("+", " ")), up.unquote_to_bytes(x.replace("+", " "))))
+        for pc in sup.split("&"):
+            if not pc:
+                continue
+            k, _, x = pc.partition("=")
+            if f[3] == "update_query":       # the string is parsed: escapes are escapes
+                want = (up.unquote_to_bytes(k.replace("+", " ")), up.unquote_to_bytes(x.replace("+", " ")))
+            else:                            # extend_query (like with_query) takes the string as TEXT: a '%' in it is data
+                want = (k.replace("+", " ").encode("utf-8"), x.replace("+", " ").encode("utf-8"))
+            if want not in got:
+                repl = any(b"\xef\xbf\xbd" in a + c for a, c in got)
+                out.append(fail(vv, h, "raw_query_string", f"{f[3]}({sup!r}): no pair of the result {dec(raw)!r} decodes to the supplied pair {want!r}",
+                                "query-undecodable-escape-replaced" if repl else "query-str-bytes"))
+                break
     # URL level: join must only splice encoded segments (every result segment decodes to a base or reference segment)
     v = View(full, io)
     for h, n in enumerate(v.cr):
@@ -370,6 +400,14 @@ def c02_streams(rng, tier, budget):
             m = st3.mod(h, nm, *args)
             st3.obs_all(m, C02_OBS)
             st3.obs_all(st3.mod(m, nm, *args), C02_OBS)          # and once more on the result
+    # a query STRING handed to update_query / the '%' operator is parsed (escapes are escapes): every supplied pair must be found in the
+    # result with the same form-decoded bytes, an encoded delimiter stays encoded, and the pairs the URL already had keep their bytes
+    for bq in ("", "?t=a%2Bb%26c&u=1", "?a=0&k%3Dk=w"):
+        for sq in ("a=1%2B2", "a=x%26y%3Dz", "k%3Dk=v", "n=1", "a=1+2&b=%20", "s=a%3Bb;c", "e=%C3%A9&f=%e2%82%ac", "p=100%25", "bad=%FF", "half=%e4%bd"):
+            h = st3.new("http://h/p" + bq)
+            st3.obs_all(h, C02_OBS)
+            for nm in ("update_query", "extend_query"):
+                st3.obs_all(st3.mod(h, nm, "S" + enc(sq)), C02_OBS)
     yield "modifier-preserves-bytes", st3
     n = int((200 if tier == "quick" else 3000) * budget)
     yield "urls", general_stream(rng, n, C02_OBS, enc_frac=0.0)
@@ -467,11 +505,28 @@ def c03_streams(rng, tier, budget):
     n = int((250 if tier == "quick" else 4000) * budget)
     yield "urls+reparse", general_stream(rng, n, C03_OBS, enc_frac=0.0, with_rt=True, chain=2)
     st = Stream()
-    for s in ["a%3Ab", "a%3Ab/c", "./a:b", "http://h/a%3Ab", "//h/a:b", "x/a%3Ab", "%3A", "http://[v1.a:b]/", "http://[v1.a]/", "http://H:80/", "HTTP://Ü.com:80/%7e"]:
+    for s in ["a%3Ab", "a%3Ab/c", "./a:b", "http://h/a%3Ab", "//h/a:b", "x/a%3Ab", "%3A", "http://[v1.a:b]/", "http://[v1.a]/", "http://H:80/", "HTTP://Ü.com:80/%7e",
+              # a path that starts with '//' and no authority in front of it: the string form needs the explicit empty authority
+              "////srv/x", "//", "///", "////", "x:////a", "/.//a", "a/b:c", "a/b:c?k=v#f"]:
         h = st.new(s)
         st.obs_all(h, C03_OBS)
         r = st.rt(h)
         st.obs_all(r, C03_OBS)
+    # … and the same shapes reached through chains of modifiers
+    for bs, chain in (("http://h//srv/x", [("relative",)]), ("http://h//srv/x", [("relative",), ("with_name", enc("y"), "F", "F")]), ("http://h//srv/x", [("relative",), ("parent",)]),
+                      ("http://h//srv/x?q#f", [("relative",), ("with_fragment", "~")]), ("http://u@h:81/a", [("origin",), ("with_path", enc("//x"), "F", "F", "F")]),
+                      ("http://h/a", [("with_path", enc(""), "F", "F", "F"), ("with_query", "S" + enc("k=v"))]), ("http://h:80/a", [("with_scheme", enc("https")), ("with_port", "443")]),
+                      ("http://u:p@h/a", [("with_host", enc("[::1]".strip("[]"))), ("with_port", "80")])):
+        h = st.new(bs)
+        for stp in chain:
+            h = st.mod(h, *stp)
+            st.obs_all(h, C03_OBS)
+            st.obs_all(st.rt(h), C03_OBS)
+    jb = st.new("/a/b")
+    for rf in ("..//c", "//c", ".//c", "../..//c/d"):
+        j = st.join(jb, st.new(rf))
+        st.obs_all(j, C03_OBS)
+        st.obs_all(st.rt(j), C03_OBS)
     yield "corpus", st
     # every normalisation that can be applied twice: explicit default ports × scheme changes, case folding, IDNA, dot segments,
     # each followed by re-parsing the string form (the port is the component that goes stale when a cache is carried over)
@@ -664,7 +719,11 @@ def c04_streams(rng, tier, budget):
         for tail in ("?", "#", "?#", "?q#", "?#f"):
             st2.obs_all(st2.new(base + tail), ["str"])
     for s0 in ("x:///p", "x://", "svn-x:///a/b?q", "http://h?q", "http://h#f", "//h?q", "ws://h:8080?q#f", "http://u:p:w@h/", "http://u:a:b:c@h/p", "http:/p", "file:/p", "ftp:/a/b?q",
-               "file:///p", "http://:p@h/", "x:", "x:?q", "", "?q", "#f", "a", "a/b?q#f", "./a:b", "http://h/a:b@c", "http://h/?a:b@c/d?e", "http://h/#a:b@c/d?e",
+               "file:///p", "http://:p@h/", "x:", "x:?q", "", "?q", "#f", "a", "a/b?q#f", "./a:b", "http://h/a:b@c",
+               # ':' and '@' in a LATER segment of a relative reference, sub-delims in the userinfo, '/' and '?' inside query and fragment, port 0,
+               # an empty password, an empty query key, a trailing dot in the host, '~'
+               "a/b:c", "img/x:1.png", "seg/u:p@x", "a/b:c?k=v#frag", "/a/b:c", "http://a!$&'()*+,;=b:p!$&'()*+,;=w@h/", "http://h/?a/b?c", "http://h/#a/b?c", "http://h:0/",
+               "http://u:@h/", "http://h/?=v", "http://h./", "http://h/~a/b~", "http://[fe80::1%eth0]/", "//h/a:b/c:d", "http://h/?a:b@c/d?e", "http://h/#a:b@c/d?e",
                # dot segments are non-canonical only UNDER AN AUTHORITY: without one they are kept
                "/a/../b", "/.", "/..", "/a/./b/", "../a", "a/./b", "a/..", ".", "..", "mailto:/x/./y", "x:/a/../b", "x:a/../b", "/a/../b?q#f"):
         st2.obs_all(st2.new(s0), ["str"])
@@ -1103,6 +1162,12 @@ def c07_streams(rng, tier, budget):
     for pre in ["http:", "//", "x://a", " \t", "a\n:"]:
         for s in urlgen.delimiter_strings(3):
             st.add("su\t" + enc(pre + s))
+    # leading runs of C0 controls / space in every order with TAB, CR, LF inside them (all of it is stripped / removed before the scheme scan)
+    for lead in ["\n ", "\t\x00", " \r\n  ", "\x1f\t\x01", "\r \n", "\t \t ", " \x00\n\x7f", "\n", " ", "\x00", "\t\r\n", "  \t"]:
+        for body in ("http://h/p?q#f", "x:p", "//h", "p"):
+            st.add("su\t" + enc(lead + body))
+            st.obs_all(st.new(lead + body, encoded=True), ["val", "scheme", "raw_host", "raw_path", "str"])
+            st.obs_all(st.new(lead + body), ["val", "scheme", "raw_host", "raw_path", "str"])
     yield "delimiter-strings", st
     st3 = Stream()
     for s in gens.strings_over(["[", "]", "@", ":", "a", "1", ".", "v"], 5 if tier == "quick" else 6):
